@@ -5,6 +5,7 @@
 #include <verif_hooks.h>
 #include <lp/msg.h>
 #include <core/core.h>
+#include <ROOT-Sim.h>
 #include <pthread.h>
 #include <stdatomic.h>
 #include <unistd.h>
@@ -115,8 +116,23 @@ void verif_sched_done(void)
 static int delay_point = -1, delay_rid, delay_us, delay_one_in = 1;
 static _Atomic uint64_t delay_rng = 88172645463325252ULL;
 
+static int sched_requested;
+static uint64_t sched_req_seed, sched_req_stride;
+static pthread_once_t sched_once = PTHREAD_ONCE_INIT;
+static void sched_auto_enable(void)
+{
+	extern struct simulation_configuration global_config;
+	verif_sched_enable((int)global_config.n_threads, sched_req_seed, sched_req_stride, getenv("VERIF_SCHED_LOG"));
+}
+
 void verif_yield(int point)
 {
+	if(sched_requested) {
+		/* whole-simulation mode: worker threads register themselves at their first scheduling point */
+		pthread_once(&sched_once, sched_auto_enable);
+		if(sched_id < 0)
+			verif_sched_register((int)rid);
+	}
 	if(point == delay_point && (int)rid == delay_rid) {
 		uint64_t x = atomic_fetch_add(&delay_rng, 0x9E3779B97F4A7C15ULL);
 		x ^= x >> 29; x *= 0xBF58476D1CE4E5B9ULL; x ^= x >> 32;
@@ -138,6 +154,12 @@ void verif_trace(int kind, uint64_t a, uint64_t b, uint64_t c, uint64_t d)
 		t->stage = (int)a;
 		t->phase = (int)b;
 		t->stage_arg = (int)c;
+		if(sched_requested) {
+			if(a == 9)
+				verif_sched_done();
+			else
+				verif_yield(100 + (int)a);
+		}
 	}
 	if(!(verif_trace_mask & (1ULL << kind)))
 		return;
@@ -201,6 +223,9 @@ void verif_trace_setup(const char *path, uint64_t mask, unsigned watchdog_s)
 {
 	dump_path = path;
 	verif_trace_mask = mask;
+	const char *sc = getenv("VERIF_SCHED");
+	if(sc && sscanf(sc, "%" SCNu64 ",%" SCNu64, &sched_req_seed, &sched_req_stride) == 2)
+		sched_requested = 1;
 	const char *dl = getenv("VERIF_DELAY");
 	if(dl)
 		sscanf(dl, "%d,%d,%d,%d", &delay_point, &delay_rid, &delay_us, &delay_one_in);
